@@ -15,9 +15,12 @@ Valid(s, t) == \/ t \in {"4326", "3857", "6933", "utm", "utm-n", "utm-s"}
                \/ (t \in {"3577", "4283"} /\ s \in {"au_3577_tile", "au_4326_tile", "au_4326_nonsquare"})
                \/ (t = "4258" /\ s \notin {"au_3577_tile", "au_4326_tile", "au_4326_nonsquare", "equator_4326"})
 Cases(s) == {[source |-> s, target |-> t, opts |-> o, shape |-> <<40, 50>>] : t \in {x \in Targets : Valid(s, x)}, o \in OptSet}
+\* CRS.utm(...) asked directly for a place given as two numbers, an XY, a lon/lat bounding box, a geometry with or without a CRS tag
+UtmPoints == {[source |-> "point", target |-> "utm", lon10 |-> x, lat10 |-> y, form |-> f, opts |-> [res |-> "auto", shape |-> "none", anchor |-> "default", tight |-> FALSE, tol |-> <<1, 100>>], shape |-> <<1, 1>>] :
+                x \in {-1770, -1230, -30, 5, 105, 440, 1470, 1790}, y \in {-600, -10, 5, 450, 580}, f \in {"floats", "xy", "bbox", "geom", "geom_no_crs", "geom_3857"}}
 VARIABLE c
-Init == c \in {[k |-> s] : s \in Sources}
-Next == "k" \in DOMAIN c /\ c' \in Cases(c.k) /\ Emit(c')
+Init == c \in {[k |-> "utm-points"]} \cup {[k |-> s] : s \in Sources}
+Next == "k" \in DOMAIN c /\ c' \in (IF c.k = "utm-points" THEN UtmPoints ELSE Cases(c.k)) /\ Emit(c')
 Spec == Init /\ [][Next]_c
 \* design-level: the decision table is consistent for every option set and CRS relation
 ModelOK == "opts" \in DOMAIN c => \A sc \in BOOLEAN, su \in BOOLEAN : (sc => su) => TableOK([opts |-> c.opts, same_crs |-> sc, same_units |-> su])
